@@ -3,6 +3,8 @@
 #ifndef TETL_MATH_ABS_HPP
 #define TETL_MATH_ABS_HPP
 
+#include <etl/_config/all.hpp>
+
 namespace etl {
 namespace detail {
 
@@ -20,6 +22,21 @@ template <typename T>
     return n * T(-1);
 }
 
+// clears the sign bit (also of -0.0 and of NaNs)
+#if __has_builtin(__builtin_fabs)
+[[nodiscard]] constexpr auto fabs_impl(float n) noexcept -> float { return __builtin_fabsf(n); }
+
+[[nodiscard]] constexpr auto fabs_impl(double n) noexcept -> double { return __builtin_fabs(n); }
+
+[[nodiscard]] constexpr auto fabs_impl(long double n) noexcept -> long double { return __builtin_fabsl(n); }
+#else
+template <typename T>
+[[nodiscard]] constexpr auto fabs_impl(T n) noexcept -> T
+{
+    return abs_impl<T>(n);
+}
+#endif
+
 } // namespace detail
 
 /// \brief Computes the absolute value of an integer number. The behavior is
@@ -32,21 +49,21 @@ template <typename T>
 
 [[nodiscard]] constexpr auto abs(long long n) noexcept -> long long { return detail::abs_impl<long long>(n); }
 
-[[nodiscard]] constexpr auto abs(float n) noexcept -> float { return detail::abs_impl<float>(n); }
+[[nodiscard]] constexpr auto abs(float n) noexcept -> float { return detail::fabs_impl(n); }
 
-[[nodiscard]] constexpr auto abs(double n) noexcept -> double { return detail::abs_impl<double>(n); }
+[[nodiscard]] constexpr auto abs(double n) noexcept -> double { return detail::fabs_impl(n); }
 
-[[nodiscard]] constexpr auto abs(long double n) noexcept -> long double { return detail::abs_impl<long double>(n); }
+[[nodiscard]] constexpr auto abs(long double n) noexcept -> long double { return detail::fabs_impl(n); }
 
-[[nodiscard]] constexpr auto fabs(float n) noexcept -> float { return detail::abs_impl<float>(n); }
+[[nodiscard]] constexpr auto fabs(float n) noexcept -> float { return detail::fabs_impl(n); }
 
-[[nodiscard]] constexpr auto fabsf(float n) noexcept -> float { return detail::abs_impl<float>(n); }
+[[nodiscard]] constexpr auto fabsf(float n) noexcept -> float { return detail::fabs_impl(n); }
 
-[[nodiscard]] constexpr auto fabs(double n) noexcept -> double { return detail::abs_impl<double>(n); }
+[[nodiscard]] constexpr auto fabs(double n) noexcept -> double { return detail::fabs_impl(n); }
 
-[[nodiscard]] constexpr auto fabs(long double n) noexcept -> long double { return detail::abs_impl<long double>(n); }
+[[nodiscard]] constexpr auto fabs(long double n) noexcept -> long double { return detail::fabs_impl(n); }
 
-[[nodiscard]] constexpr auto fabsl(long double n) noexcept -> long double { return detail::abs_impl<long double>(n); }
+[[nodiscard]] constexpr auto fabsl(long double n) noexcept -> long double { return detail::fabs_impl(n); }
 
 } // namespace etl
 
